@@ -206,7 +206,7 @@ func checkSessions(c *Ctx, sc sessCase) {
 		}
 		out.Reset()
 		prev = snap(s, sc.maxLen)
-		if len(prev.bytes) > 1500000 {
+		if len(prev.bytes) > 1500000 && sc.kind != "huge-flat-line" { // (a flat 5 MB string literal nests nothing)
 			// keep a saved line well below the size at which the recursive parser exhausts the Go stack (a 3 MB run of `[`
 			// kills the clean tree with a stack overflow that nobody can recover): a limit of the machinery
 			c.Count("harness-resource-limit:state-file-over-1.5MB")
@@ -720,6 +720,8 @@ var sessionCorpus = []sessCase{
 	{"long-line", 4000, [][]string{{"alpha = 1", fnOfLen("big", 70000), "small = [1, 2.5, \"x\"]", "z = 42"}}, []string{"big(1)"}},
 	{"long-line", 40000, [][]string{{"alpha = 1", fnOfLen("big", 2*40000+2000), "z = 42"}}, []string{"big(1)"}},
 	{"long-line", 0, [][]string{{"alpha = 1", fnOfLen("poly", 70000), "zeta = [1,2]", "big = " + strOfInspectLen(70000)}}, []string{"poly(2)"}},
+	// round 12: one saved line of 5 MB (no value-length limit), bindings sorted before and after it
+	{"huge-flat-line", 0, [][]string{{"alpha = 1", "huge = \"ab\"*2500000", "zeta = [1,2]", "zz = \"end\""}}, []string{"len(huge)", "zeta[1]"}},
 	{"long-line", 200, [][]string{{"alpha = 1", fnOfLen("poly", 2000), "zeta = [1,2]", "lam = a => a" + strings.Repeat("+1", 150)}}, []string{"poly(2)"}},
 	// string literals inside function bodies: a double quote together with a newline, tab, NUL, high byte; a raw string
 	{"string-literal-in-function", 4000, [][]string{{"aa = 1", "func usage(who){\"dear \\\"\" + who + \"\\\":\\nsee \\\"help\\\"\\n\"}", "lam = a => [\"q\\\"\\n\\t\\x00\\xff\", {\"k\\\"\\r\": a}]", "zz = 2"}, {"zz = 3"}}, []string{"usage(\"you\")", "lam(1)"}},
